@@ -88,12 +88,12 @@ Definition seg_allowed (s : socket) (g : ghost) (r : tcp_repr) (st st' : tcp_sta
   (st = SynReceived /\ st' = CloseWait /\ acks_iss g r /\ fin_in_order s r) \/
   (st = SynReceived /\ st' = Listen /\ rst_acceptable s r /\ le_port (s_listen_endpoint s) <> 0) \/
   (st = Established /\ st' = CloseWait /\ fin_in_order s r) \/
-  (st = FinWait1 /\ st' = FinWait2 /\ acks_own_fin g r) \/
+  (st = FinWait1 /\ st' = FinWait2 /\ acks_own_fin g r /\ r_control r <> CRst) \/
   (st = FinWait1 /\ st' = Closing /\ fin_in_order s r) \/
   (st = FinWait1 /\ st' = TimeWait /\ fin_in_order s r /\ acks_own_fin g r) \/
   (st = FinWait2 /\ st' = TimeWait /\ fin_in_order s r) \/
-  (st = Closing /\ st' = TimeWait /\ acks_own_fin g r) \/
-  (st = LastAck /\ st' = Closed /\ acks_own_fin g r) \/
+  (st = Closing /\ st' = TimeWait /\ acks_own_fin g r /\ r_control r <> CRst) \/
+  (st = LastAck /\ st' = Closed /\ acks_own_fin g r /\ r_control r <> CRst) \/
   (synchronized st /\ st' = Closed /\ rst_acceptable s r).
 
 (* when may one `dispatch` change the state: only to CLOSED, and only for one of three reasons *)
@@ -1721,4 +1721,324 @@ Proof.
     + split; [|eapply inv_disp_rel; eassumption].
       destruct Hr as (_ & _ & [Hs|[Hs Hw']] & _); unfold allowed; [left; exact Hs|].
       right. split; [exact Hs|]. destruct Hw' as [Hw'|Hw']; auto.
+Qed.
+
+(* ================================================================== *)
+(** * 6. RST, TIME-WAIT, reachability                                  *)
+(* ================================================================== *)
+
+(* Only an acceptable RST (in the window; during the handshake: acknowledging exactly ISS+1) resets. *)
+Theorem blind_rst_ignored : forall cx s g ip r s' out tags,
+  inv s g -> wf_ctx cx -> wf_repr r ->
+  tcp_step cx s (EvSegment ip r) = Ok (s', out, tags) ->
+  r_control r = CRst ->
+  ~ (synchronized (s_state s) /\ rst_acceptable s r) ->
+  ~ (s_state s = SynSent /\ acks_iss g r) ->
+  s_state s' = s_state s.
+Proof.
+  intros cx s g ip r s' out tags Hinv Hcx Hwf H Hc Hn1 Hn2.
+  destruct (step_ok cx s g (EvSegment ip r) s' out tags Hinv Hcx Hwf H) as [Ha _].
+  unfold allowed in Ha. destruct Ha as [Ha|Ha]; [exact Ha|]. exfalso.
+  unfold seg_allowed, fin_in_order in Ha.
+  repeat match goal with
+         | Hd : _ \/ _ |- _ => destruct Hd as [Hd|Hd]
+         end;
+    repeat match goal with Hd : _ /\ _ |- _ => destruct Hd end; try congruence.
+  - apply Hn2. split; assumption.
+  - apply Hn1. split; [|assumption].
+    match goal with E : s_state s = SynReceived |- _ => rewrite E end.
+    unfold synchronized. isplit; discriminate.
+  - apply Hn1. split; assumption.
+Qed.
+
+(* --- TIME-WAIT --- *)
+
+(* the constant of the source: 10 s (in microseconds); a change of CLOSE_DELAY in tcp.rs breaks this *)
+Lemma close_delay_is_10s : tcp_CLOSE_DELAY = 10 * 1000000.
+Proof. reflexivity. Qed.
+
+(* TIME-WAIT is entered only by a segment, and the timer is then set to now + CLOSE_DELAY *)
+Theorem time_wait_entry : forall cx s g ev s' out tags,
+  inv s g -> wf_ctx cx -> wf_event ev ->
+  tcp_step cx s ev = Ok (s', out, tags) ->
+  s_state s <> TimeWait -> s_state s' = TimeWait ->
+  (exists ip r, ev = EvSegment ip r) /\ s_timer s' = TClose (cx_now cx + 10 * 1000000).
+Proof.
+  intros cx s g ev s' out tags Hinv Hcx Hwf H Hn Ht. rewrite <- close_delay_is_10s.
+  destruct (step_ok cx s g ev s' out tags Hinv Hcx Hwf H) as [Ha _].
+  unfold allowed in Ha. rewrite Ht in Ha. destruct Ha as [Ha|Ha]; [congruence|].
+  destruct ev; try contradiction; try (intuition discriminate).
+  split; [eauto|].
+  simpl in H. unfold obind in H.
+  destruct (iface_tcp_ingress cx s ip r) as [[[s1 reply] tg]| |] eqn:E; inv H.
+  eapply ingress_step in E; eauto. destruct E as (_ & _ & E3 & _). auto.
+Qed.
+
+Lemma decide_nothing : forall cx s s2 tg,
+  tcp_dispatch_decide cx s = Ok (s2, false, tg) ->
+  (s2 = upd_tuple (tcp_set_state s Closed) None) \/
+  (s2 = s /\ timer_should_close (s_timer s) (cx_now cx) = false /\ s_state s <> Closed).
+Proof.
+  intros cx s s2 tg H. unfold tcp_dispatch_decide in H. unfold obind in H.
+  destruct (tcp_seq_to_transmit cx s) as [b| |]; try discriminate H.
+  destruct b; [inv H|].
+  destruct (tcp_ack_to_transmit s && tcp_delayed_ack_expired s (cx_now cx)); [inv H|].
+  destruct (tcp_window_to_update s) as [b| |]; try discriminate H.
+  destruct b; [inv H|].
+  destruct (tcp_state_eqb (s_state s) Closed) eqn:Ec; [inv H|].
+  destruct (timer_should_keep_alive (s_timer s) (cx_now cx)); [inv H|].
+  destruct (timer_should_zero_window_probe (s_timer s) (cx_now cx)); [inv H|].
+  destruct (timer_should_close (s_timer s) (cx_now cx)) eqn:Es; inv H; auto.
+  right. isplit; auto. intros E. rewrite E in Ec. discriminate Ec.
+Qed.
+
+(* a dispatch that sends nothing from an expired TIME-WAIT (or from CLOSED) ends in CLOSED *)
+Lemma dispatch_nothing_closes : forall cx s g s' tags e,
+  inv s g -> tcp_dispatch cx s true = Ok (s', DNothing, tags) ->
+  (s_state s = Closed \/ (s_state s = TimeWait /\ s_timer s = TClose e /\ e <= cx_now cx)) ->
+  s_state s' = Closed.
+Proof.
+  intros cx s g s' tags e Hinv H Hst.
+  assert (Hc : s_state s = Closed -> s_state s' = Closed).
+  { intros Ec. eapply dispatch_step in H; [|exact Hinv].
+    destruct H as [->|[[-> _]|(_ & _ & [Hs|[Hs _]] & _)]]; try congruence. apply reset_spec. }
+  destruct Hst as [Ec|(Et & Htm & Hle)]; [auto|].
+  unfold tcp_dispatch in H.
+  destruct (s_tuple s) as [t|] eqn:Etu.
+  2:{ destruct Hinv as (_ & _ & _ & _ & _ & Htu & _). exfalso. apply Htu; congruence. }
+  destruct (Z.eqb_spec (tu_local_addr t) (cx_addr cx)) as [Ea|Ea]; simpl in H;
+    [|inv H; apply reset_spec].
+  unfold obind in H.
+  destruct (tcp_dispatch_timers cx s) as [[s1 t1]| |] eqn:E1; try discriminate H.
+  apply dispatch_timers_spec in E1. destruct E1 as (A1 & A2 & A3 & A4).
+  destruct (tcp_dispatch_decide cx s1) as [[[s2 go] t2]| |] eqn:E2; try discriminate H.
+  destruct go.
+  - (* something is sent or LISTEN: not DNothing unless the build returns None *)
+    destruct (tcp_dispatch_build cx s2 t) as [[[[[s3 orepr] zwp] ka] t3]| |] eqn:E3; try discriminate H.
+    destruct orepr as [repr|].
+    + simpl in H. destruct (tcp_dispatch_finish cx s3 repr zwp ka). inv H.
+    + (* only LISTEN builds nothing *)
+      exfalso. apply dispatch_decide_spec in E2. destruct E2 as [->|(G & _)]; [|discriminate G].
+      unfold tcp_dispatch_build in E3. unfold obind in E3.
+      assert (Hs1 : s_state s1 = TimeWait \/ s_state s1 = Closed).
+      { destruct A4 as [A4|[A4 _]]; [left; congruence | right; exact A4]. }
+      destruct Hs1 as [Hs1|Hs1]; rewrite Hs1 in E3; simpl in E3;
+        match type of E3 with context [if ?c then _ else _] => destruct c end;
+        try match type of E3 with context [if ?c then _ else _] => destruct c end;
+        try (unfold obind in E3; destruct (tcp_local_mss cx)); inv E3.
+  - inv H. apply decide_nothing in E2. destruct E2 as [->|(-> & G2 & G3)]; [reflexivity|].
+    destruct A4 as [A4|[A4 _]]; [|exact A4].
+    exfalso. assert (Ht1 : s_timer s1 = TClose e) by (apply A3; exact Htm).
+    rewrite Ht1 in G2. simpl in G2. lia.
+Qed.
+
+(* TIME-WAIT ends by itself: a poll (egress loop of Interface::poll, device not exhausted) at or
+   after the deadline leaves the socket CLOSED *)
+Theorem time_wait_expires : forall fuel cx s g e sent tags0 s' ps tags,
+  inv s g ->
+  (s_state s = Closed \/ (s_state s = TimeWait /\ s_timer s = TClose e /\ e <= cx_now cx)) ->
+  iface_poll_egress_acc fuel cx s None sent tags0 = Ok (s', ps, tags, true) ->
+  s_state s' = Closed.
+Proof.
+  induction fuel; intros cx s g e sent tags0 s' ps tags Hinv Hst H; simpl in H; [inv H|].
+  unfold obind in H.
+  destruct (tcp_dispatch cx s true) as [[[s1 res] tg]| |] eqn:E; try discriminate H.
+  destruct res as [|p|p].
+  - inv H. eapply dispatch_nothing_closes; eassumption.
+  - pose proof E as E'. eapply dispatch_step in E'; [|exact Hinv].
+    assert (Hinv1 : inv s1 g /\
+      (s_state s1 = Closed \/ (s_state s1 = TimeWait /\ s_timer s1 = TClose e /\ e <= cx_now cx))).
+    { destruct E' as [->|[[-> _]|Hr]].
+      - auto.
+      - split; [apply inv_reset; exact Hinv | left; apply reset_spec].
+      - split; [eapply inv_disp_rel; eassumption|].
+        destruct Hr as (_ & Hti & [Hs|[Hs _]] & _); [|left; exact Hs].
+        destruct Hst as [Hc|(Ht & Htm & Hle)]; [left; congruence|].
+        right. isplit; [congruence | apply Hti; exact Htm | exact Hle]. }
+    destruct Hinv1 as [Hi1 Hs1]. eapply IHfuel; eassumption.
+  - (* emit_ok = true never fails *)
+    unfold tcp_dispatch in E. destruct (s_tuple s); [|inv E].
+    destruct (negb (tu_local_addr t =? cx_addr cx)); [inv E|]. unfold obind in E.
+    destruct (tcp_dispatch_timers cx s) as [[? ?]| |]; try discriminate E.
+    destruct (tcp_dispatch_decide cx s0) as [[[? go] ?]| |]; try discriminate E.
+    destruct go; [|inv E].
+    destruct (tcp_dispatch_build cx s2 t) as [[[[[? orepr] ?] ?] ?]| |]; try discriminate E.
+    destruct orepr; [|inv E]. simpl in E. destruct (tcp_dispatch_finish cx s3 t0 b b0). inv E.
+Qed.
+
+(* while in TIME-WAIT the deadline is kept or restarted, never moved earlier *)
+Theorem time_wait_timer_kept : forall cx s g ev s' out tags e,
+  inv s g -> wf_ctx cx -> wf_event ev ->
+  tcp_step cx s ev = Ok (s', out, tags) ->
+  s_state s = TimeWait -> s_timer s = TClose e -> s_state s' = TimeWait ->
+  s_timer s' = TClose e \/ s_timer s' = TClose (cx_now cx + 10 * 1000000).
+Proof.
+  intros cx s g ev s' out tags e Hinv Hcx Hwf H Hs Ht Hs'. rewrite <- close_delay_is_10s.
+  destruct ev; simpl in H.
+  - destruct (tcp_listen s ep) eqn:E; inv H; auto.
+    unfold tcp_listen in E. destruct (le_port ep =? 0); [discriminate E|].
+    unfold tcp_is_open in E. rewrite Hs in E. inv E. simpl in Hs'. discriminate Hs'.
+  - destruct (tcp_connect cx s remote_addr remote_port local) eqn:E; inv H; auto.
+    unfold tcp_connect in E. unfold tcp_is_open in E. rewrite Hs in E.
+    destruct ((remote_port =? 0) || (remote_addr =? 0)); [discriminate E|].
+    destruct (le_port local =? 0); [discriminate E|]. unfold obind in E.
+    match type of E with match ?x with _ => _ end = _ => destruct x; try discriminate E end.
+    inv E. simpl in Hs'. discriminate Hs'.
+  - inv H. unfold tcp_close. rewrite Hs. auto.
+  - inv H. simpl in Hs'. discriminate Hs'.
+  - destruct (tcp_send_slice s data) as [[s1 n]| |] eqn:E; inv H; auto.
+    unfold tcp_send_slice, tcp_may_send in E. rewrite Hs in E. discriminate E.
+  - destruct (tcp_recv_slice s n) as [[s1 l]| |] eqn:E; inv H; auto.
+    unfold tcp_recv_slice in E. unfold obind in E. destruct (tcp_recv_error_check s); try discriminate E.
+    destruct (rb_dequeue_slice (s_rx_buffer s) n). inv E. simpl. auto.
+  - destruct (tcp_peek s n); inv H; auto.
+  - destruct (tcp_peek_slice s n); inv H; auto.
+  - inv H. simpl. auto.
+  - inv H. unfold tcp_set_keep_alive. destruct (is_some d); simpl; rewrite ?Ht; simpl; auto.
+  - inv H. simpl. auto.
+  - inv H. simpl. auto.
+  - unfold obind in H. destruct (tcp_set_hop_limit s h) as [s1| |] eqn:E; inv H.
+    unfold tcp_set_hop_limit in E. destruct h as [[|p|p]|]; inv E; simpl; auto.
+  - unfold obind in H. destruct (iface_tcp_ingress cx s ip r) as [[[s1 reply] tg]| |] eqn:E; inv H.
+    eapply ingress_step in E; eauto. destruct E as (_ & _ & _ & E4).
+    destruct (E4 Hs' Hs) as [E|E]; [left; congruence | right; exact E].
+  - unfold obind in H. destruct (tcp_dispatch cx s emit_ok) as [[[s1 res] tg]| |] eqn:E; inv H.
+    eapply dispatch_step in E; [|exact Hinv].
+    destruct E as [->|[[-> _]|(_ & Hti & _)]]; auto.
+    + exfalso. destruct (reset_spec s) as (R1 & _). congruence.
+    + left. apply Hti. exact Ht.
+Qed.
+
+(* TIME-WAIT does not end early: leaving it needs an abort/re-open call, an acceptable RST, or a
+   dispatch at/after the deadline (or the user timeout / the address being removed) *)
+Theorem time_wait_not_before : forall cx s g ev s' out tags e,
+  inv s g -> wf_ctx cx -> wf_event ev ->
+  tcp_step cx s ev = Ok (s', out, tags) ->
+  s_state s = TimeWait -> s_timer s = TClose e -> s_state s' <> TimeWait ->
+  match ev with
+  | EvAbort | EvListen _ | EvConnect _ _ _ => True
+  | EvSegment _ r => rst_acceptable s r
+  | EvDispatch _ => e <= cx_now cx \/ user_timeout_expired cx s \/ address_removed cx s
+  | _ => False
+  end.
+Proof.
+  intros cx s g ev s' out tags e Hinv Hcx Hwf H Hs Ht Hs'.
+  destruct (step_ok cx s g ev s' out tags Hinv Hcx Hwf H) as [Ha _].
+  unfold allowed in Ha. rewrite Hs in Ha. destruct Ha as [Ha|Ha]; [contradiction|].
+  destruct ev; auto; try (intuition discriminate).
+  - unfold seg_allowed in Ha.
+    repeat match goal with Hd : _ \/ _ |- _ => destruct Hd as [Hd|Hd] end;
+      repeat match goal with Hd : _ /\ _ |- _ => destruct Hd end; try discriminate; assumption.
+  - destruct Ha as [_ [(_ & e' & He' & Hle)|[Hu|Hr]]]; auto.
+    left. congruence.
+Qed.
+
+(* --- every event sequence --- *)
+
+Definition ghost0 : ghost := mkGhost 0 0.
+
+(* run a list of (context, event) pairs; None if some step panics *)
+Fixpoint run (s : socket) (g : ghost) (evs : list (ctx * event)) : option (socket * ghost) :=
+  match evs with
+  | [] => Some (s, g)
+  | (cx, ev) :: rest =>
+      match tcp_step cx s ev with
+      | Ok (s', out, _) => run s' (ghost_step cx s g ev s' out) rest
+      | _ => None
+      end
+  end.
+
+Definition wf_input (ce : ctx * event) : Prop := wf_ctx (fst ce) /\ wf_event (snd ce).
+
+Lemma l_len_eq : forall l, l_len l = Z.of_nat (length l).
+Proof.
+  intros. unfold l_len.
+  assert (H : forall l acc, l_len_acc l acc = acc + Z.of_nat (length l)).
+  { induction l0; intros; simpl; [lia | rewrite IHl0; lia]. }
+  rewrite H. lia.
+Qed.
+
+Lemma inv_new : forall rx tx cc ts s0, tcp_new rx tx cc ts = Ok s0 -> inv s0 ghost0.
+Proof.
+  intros rx tx cc ts s0 H. unfold tcp_new in H.
+  destruct (rb_cap (rb_new rx) >? 2 ^ 30); inv H.
+  unfold inv, J, tx_len, ghost0. simpl.
+  pose proof (l_len_nonneg tx).
+  isplit; auto; try discriminate; try lia; try apply seq_wf_0.
+Qed.
+
+(* the invariant holds after every sequence of well-formed events from a fresh socket *)
+Theorem inv_all_sequences : forall evs s g s' g',
+  inv s g -> Forall wf_input evs -> run s g evs = Some (s', g') -> inv s' g'.
+Proof.
+  induction evs as [|[cx ev] rest IH]; intros s g s' g' Hinv Hwf H; simpl in H.
+  - inv H. exact Hinv.
+  - inversion Hwf as [|? ? [Hc He] Hr]; subst. simpl in Hc, He.
+    destruct (tcp_step cx s ev) as [[[s1 out] tg]| |] eqn:E; try discriminate H.
+    destruct (step_ok cx s g ev s1 out tg Hinv Hc He E) as [_ Hi].
+    eapply IH; eassumption.
+Qed.
+
+(* ... and every single transition along the way is allowed *)
+Theorem all_transitions_allowed : forall pre cx ev s0 g0 s g s' out tags,
+  inv s0 g0 -> Forall wf_input pre -> wf_ctx cx -> wf_event ev ->
+  run s0 g0 pre = Some (s, g) ->
+  tcp_step cx s ev = Ok (s', out, tags) ->
+  allowed s g cx ev (s_state s').
+Proof.
+  intros pre cx ev s0 g0 s g s' out tags Hinv Hpre Hcx Hev Hrun Hstep.
+  pose proof (inv_all_sequences pre s0 g0 s g Hinv Hpre Hrun) as Hi.
+  exact (proj1 (step_ok cx s g ev s' out tags Hi Hcx Hev Hstep)).
+Qed.
+
+(* non-vacuity: a fresh 4-byte socket that listens, receives a SYN and the handshake ACK is
+   ESTABLISHED, and the invariant (hence every theorem above) applies to that state *)
+Definition ex_cx (now : Z) : ctx := mkCtx now 1500 167772161 0 1000.
+Definition ex_ip : ip_repr := mkIp 167772162 167772161 64 20.
+Definition ex_syn : tcp_repr := mkRepr 4000 80 CSyn 500 None 1000 None None false [None; None; None] None [].
+Definition ex_ack : tcp_repr := mkRepr 4000 80 CNone 501 (Some 1001) 1000 None None false [None; None; None] None [].
+Definition ex_events : list (ctx * event) :=
+  [ (ex_cx 0, EvListen (mkListenEp None 80));
+    (ex_cx 0, EvSegment ex_ip ex_syn);
+    (ex_cx 0, EvDispatch true);
+    (ex_cx 1000, EvSegment ex_ip ex_ack) ].
+
+Example established_reachable :
+  exists s0 s g,
+    tcp_new [0;0;0;0] [0;0;0;0] CcNone false = Ok s0 /\
+    Forall wf_input ex_events /\
+    run s0 ghost0 ex_events = Some (s, g) /\
+    s_state s = Established /\ inv s g.
+Proof.
+  destruct (tcp_new [0;0;0;0] [0;0;0;0] CcNone false) as [s0| |] eqn:E0; try (vm_compute in E0; discriminate E0).
+  destruct (run s0 ghost0 ex_events) as [[s g]|] eqn:E1.
+  2:{ vm_compute in E0. inv E0. vm_compute in E1. discriminate E1. }
+  exists s0, s, g.
+  assert (Hwf : Forall wf_input ex_events).
+  { unfold ex_events, wf_input, wf_ctx, wf_event, wf_repr, seq_wf. rewrite seq_modulus_val. simpl.
+    repeat constructor; simpl; unfold l_len; simpl; try lia;
+      match goal with
+      | Hx : r_ack_number _ = Some _ |- _ => simpl in Hx; first [discriminate Hx | inv Hx; lia]
+      end. }
+  isplit; auto.
+  - vm_compute in E0. inv E0. vm_compute in E1. inv E1. reflexivity.
+  - eapply inv_all_sequences; [eapply inv_new; exact E0 | exact Hwf | exact E1].
+Qed.
+
+(* TIME-WAIT ends by itself 10 s after it was entered: the step that enters TIME-WAIT at time t0,
+   then (nothing else happening) a poll at any time >= t0 + 10 s leaves the socket CLOSED *)
+Theorem time_wait_10s : forall cx0 s0 g ev s out tags fuel cx s' ps tags',
+  inv s0 g -> wf_ctx cx0 -> wf_event ev ->
+  tcp_step cx0 s0 ev = Ok (s, out, tags) ->
+  s_state s0 <> TimeWait -> s_state s = TimeWait ->
+  cx_now cx0 + 10 * 1000000 <= cx_now cx ->
+  iface_poll_egress fuel cx s None = Ok (s', ps, tags', true) ->
+  s_state s' = Closed.
+Proof.
+  intros cx0 s0 g ev s out tags fuel cx s' ps tags' Hinv Hcx Hev Hstep Hn Ht Hle Hpoll.
+  destruct (time_wait_entry cx0 s0 g ev s out tags Hinv Hcx Hev Hstep Hn Ht) as [_ Htm].
+  destruct (step_ok cx0 s0 g ev s out tags Hinv Hcx Hev Hstep) as [_ Hi].
+  unfold iface_poll_egress in Hpoll.
+  eapply time_wait_expires; [exact Hi | | exact Hpoll].
+  right. isplit; [exact Ht | exact Htm | exact Hle].
 Qed.
